@@ -43,7 +43,11 @@ class LifecycleRun:
         if r0[0] == "exc":
             raise RuntimeError(f"generated configuration refused: {r0[1]}: {r0[2]} -- {policy}")
         self.default = r0[1].default_scheme()
-        self.countable = self.default != self.disabled and not self.default.startswith("ldap_md5_crypt")
+        from simkit.worlds.credstore import HEX32
+
+        fam = [s for s in self.names if s in HEX32]
+        shadowed = self.default in fam[1:]  # its hashes are read as an earlier scheme's: the dummy hash is verified by that one
+        self.countable = self.default != self.disabled and not self.default.startswith("ldap_md5_crypt") and not shadowed
         if self.countable:
             objs = [make_counting(getattr(passlib.hash, s), self.counter) if s == self.default else s for s in self.names]
             policy["schemes"] = objs
